@@ -328,6 +328,11 @@ func (m *Message) GetString(ctx context.Context) (string, error) {
 		if err != nil {
 			return "", err
 		}
+		// The length prefix is chosen by the peer; a negative one must be a decode
+		// error, not a panic in make.
+		if length < 0 {
+			return "", fmt.Errorf("invalid string length %d", length)
+		}
 
 		if err := m.ensureData(ctx, int(length)); err != nil {
 			return "", err
@@ -401,6 +406,11 @@ func (m *Message) GetStringWithMaxSize(ctx context.Context, maxSize int) (string
 		length, err := m.GetInt32(ctx)
 		if err != nil {
 			return "", err
+		}
+
+		// A negative length from the peer is malformed input (and would panic in make).
+		if length < 0 {
+			return "", fmt.Errorf("invalid string length %d", length)
 		}
 
 		// Check if length exceeds maxSize - if so, only read maxSize bytes
